@@ -40,6 +40,9 @@ func Run(r *ev.Run) {
 	gen.WorldsSpecial(func(u *gen.Universe, desc string) {
 		cases = append(cases, ucase{u: u, desc: desc, nilLoad: len(cases)%2 == 0})
 	})
+	gen.Worlds07(func(u *gen.Universe, desc string) {
+		cases = append(cases, ucase{u: u, desc: desc, nilLoad: len(cases)%2 == 0})
+	})
 	nWorlds := len(cases)
 	nMulti := 0
 	gen.MultiDoc(thorough, func(u *gen.Universe, desc string, alias bool) {
@@ -68,7 +71,7 @@ func Run(r *ev.Run) {
 			cases = append(cases, ucase{u: u, desc: desc, alias: alias, faults: f, multiDoc: true})
 		}
 	})
-	r.Rule("G-uri: (a) single-document worlds: root (BaseURI empty/absolute, 5 root $id forms) embedding resource e (8 $id forms) embedding f (4 forms), anchors and pointer targets each with a unique const marker, the probe $ref placed in the root resource or inside e, x every string of a 65-string ref alphabet, Loader nil / present; the same with base URIs, $ids and references whose paths contain sub-delims and percent-encoded reserved characters ('(', '!', '*', '[', %2F); " +
+	r.Rule("G-uri: (a) single-document worlds: root (BaseURI empty/absolute, 5 root $id forms) embedding resource e (8 $id forms) embedding f (4 forms), anchors and pointer targets each with a unique const marker, the probe $ref placed in the root resource or inside e, x every string of a 65-string ref alphabet, Loader nil / present; the same with base URIs, $ids and references whose paths contain sub-delims and percent-encoded reserved characters ('(', '!', '*', '[', %2F); the same worlds in draft-07 spelling (definitions, fragment-only $id anchors, resource $ids with and without a trailing empty fragment, 4 bases (one a directory, with a trailing slash) x 4 root ids x 5 embedded ids x 23 references x 2 placements); " +
 		"(b) multi-document universes in 15 shapes (chains, diamonds, cycles, self-reference, retrieval-vs-canonical aliases, back-references to a root-embedded resource, references from a later document to a resource embedded in an earlier loaded one) x every fragment form per edge (valid forms on all edges, plus each single edge dangling: '#nope', '#/$defs/nope', into a document that is being loaded or is already cached) x $id mode per document x relative/absolute spelling x EVERY subset of failing loader URIs. " +
 		"Per universe: Resolve errs iff R1 says some reference designates nothing or a needed document fails; verdict per marker instance equals R1; loader call log has no URI twice, no request for an already known URI and no request for the canonical $id of a document already loaded under its retrieval URI. Fault sequences across calls: every sequence of <=3 Resolve calls of six roots, each optionally with a transient Loader fault, through ONE caching Loader must reproduce the fresh-Loader results. states = distinct (universe, fault subset) configurations, transitions = loader answers + marker validations executed on the implementation. Non-trivial = reference resolved and marker verdicts compared, or error expected and observed")
 	r.Assume("R1 + R3 (RFC 3986 §5.2 written from the RFC) designate the target; net/url is not used by the oracle",
